@@ -15,6 +15,12 @@ receiver against SendManifestMultiStream - after which the script half-closes
 its streams.  Oracle: no panic / crash, return within 4 s of the end of
 input, heap growth <= 64 MB + 4 x bytes received, no success for a
 must-reject stream.
+specs/DumbWire.tla covers the one record of the dumb transfer modes
+(internal/app/dumb_transfer.go): boundary name lengths and sizes x the places
+where the peer's stream may end; driver dumb-wire feeds each to the real
+recvDumbDiscardReader from memory, over loopback TCP and over a stream of the
+simulated connection (same oracle), and runs the real sender against a peer
+that goes away early.
 """
 import os
 import vlib
@@ -31,11 +37,19 @@ def run(tier, seed):
     res = vlib.run_vh_sharded(['wire-mutations', '-edges', em, '-fill', str(fill), '-seed', str(seed)], shards, timeout=3000)
     for viol in res['violations']:
         v.violation(viol['sig'], viol.get('replay'))
+    # the record of the dumb (benchmark) transfer modes: DumbWire.tla enumerates values and stream ends, driver
+    # dumb-wire feeds them to the real reader from memory, over loopback TCP and over a simulated QUIC stream
+    ed = os.path.join(work, "dumb.ndjson")
+    rd = vlib.run_tlc('DumbWire', dict(constants={}, action_constraint='Emit'), workers=2, edges_path=ed, timeout=300)
+    dw = vlib.run_vh_sharded(['dumb-wire', '-edges', ed], 8, timeout=1200)
+    for viol in dw['violations']:
+        v.violation(viol['sig'], viol.get('replay'))
     if res['drift']:
         v.notes.append("decoder accepted %d syntactically mutated streams the grammar rejects (conformance drift, not a verdict): %s" % (res['drift'], str(res['drift_samples'][:1])[:300]))
     v.coverage = dict(evaluations=res['steps'], distinct_nontrivial=res['behaviours'],
                       rule="one child process per (stage, record type, mutation, seeded filling); each feeds the decoders and one real endpoint; every case is non-trivial (a mutated stream)",
-                      samples=res['samples'][:8], outcomes=res['extra'].get('outcomes'), mutation_rows=r['edges'], fillings_per_row=fill, exhaustive=True)
+                      samples=res['samples'][:8], outcomes=res['extra'].get('outcomes'),
+                      dumb_mode_record=dict(rows=rd['edges'], runs=dw['behaviours'], outcomes=dw['extra'].get('outcomes'), drift=dw['drift']), mutation_rows=r['edges'], fillings_per_row=fill, exhaustive=True)
     v.assumptions = ["structure-aware mutation of a well-formed conversation plus seeded filling; arbitrary byte strings are not enumerated",
                      "the hostile peer ends its input (FIN on its streams) but keeps the connection open; 4 s to return",
                      "address-space limit 3 GiB turns an allocation taken from a 32-bit length prefix into a crash of the case process"]
